@@ -1,7 +1,378 @@
-import EvoModel.Model.Config
+/-
+C18 — config edits keep keys, types, user values; generated configs equal their args.
+
+Model: `Model/Config.lean` (set_config / finalize_values / is_number, reset, merge_dicts, the upgrade
+merge, the SettingsContainer lock, merge_config, generate with is_option / to_number as repaired by
+fix 70efe12 and the pinned generate, argparse for long options over the regenerated option tables).
+Lemmas: `Lemmas/Config.lean`.  Tables regenerated from /repo: `Gen/Settings.lean`, `Gen/Options.lean`.
+Outside the model (named where it matters): the token spellings nan / inf / infinity / digits with `_` /
+surrounding white space / non-ASCII; binary64 overflow; the key `plot_seaborn_palette` (`setConfig`
+returns an error for it, so every theorem about successful edits excludes it).
+-/
+import EvoModel.Lemmas.Config
 import EvoModel.Gen.Settings
 import EvoModel.Gen.Options
+set_option linter.unusedSimpArgs false
 namespace Evo.C18
 open Evo Evo.Config
-theorem placeholder : keys ([] : Dict) = [] := rfl
+
+/-! ## set -/
+
+/-- **set_keys_invariant**: a `set` never adds, removes or reorders keys (whatever the tokens) -/
+theorem set_keys_invariant (cfg out : Dict) (args : List String) (h : setConfig cfg args = .ok out) :
+    keys out = keys cfg := setConfig_keys args cfg out h
+
+/-- **set_changes_only_named**: parameters not named in the argument list keep their value -/
+theorem set_changes_only_named (cfg out : Dict) (args : List String) (k : String) (hk : k ∉ args)
+    (h : setConfig cfg args = .ok out) : lookup out k = lookup cfg k := setConfig_other args k hk cfg out h
+
+/-- **set_bool_stays_bool**: explicit true/false (any capitalisation), any other value or no value
+(toggle): a boolean parameter is boolean afterwards -/
+theorem set_bool_stays_bool (cfg out : Dict) (args : List String) (k : String)
+    (hb : typeAt cfg k = some .bool) (h : setConfig cfg args = .ok out) : typeAt out k = some .bool :=
+  setConfig_keeps_bool args k cfg out h hb
+
+/-- **set_list_stays_list**: one value, several values, `[]` / `none`: a list parameter stays a list -/
+theorem set_list_stays_list (cfg out : Dict) (args : List String) (k : String)
+    (hb : typeAt cfg k = some .list) (h : setConfig cfg args = .ok out) : typeAt out k = some .list :=
+  setConfig_keeps_list args k cfg out h hb
+
+/-- explicit `true` / `false` set the value, anything else toggles it -/
+theorem set_bool_explicit (cfg : Dict) (k tok : String) (b : Bool)
+    (hk : lookup cfg k = some (.atom (.bool b))) (hkp : k ≠ "plot_seaborn_palette")
+    (htok : hasKey cfg tok = false) (hnum : isNumber tok = false) :
+    ∃ out, setConfig cfg [k, tok] = .ok out ∧
+      lookup out k = some (.atom (.bool (if lowerAscii tok = "false" then false
+                                          else if lowerAscii tok = "true" then true else !b))) := by
+  have hhk : hasKey cfg k = true := (hasKey_iff_lookup _ _).mpr ⟨_, hk⟩
+  have hne : k ≠ tok := by intro e; rw [e] at hhk; rw [hhk] at htok; cases htok
+  by_cases h1 : lowerAscii tok = "false"
+  · refine ⟨setKey cfg k (.atom (.bool false)), ?_, by simp [h1, lookup_setKey_self]⟩
+    simp [setConfig, hhk, htok, convSet, hnum, finalizeValues, hkp, hk, h1, hasKey_setKey, hne, Ne.symm hne,
+      pure, Except.pure, bind, Except.bind]
+  · by_cases h2 : lowerAscii tok = "true"
+    · refine ⟨setKey cfg k (.atom (.bool true)), ?_, by simp [h1, h2, lookup_setKey_self]⟩
+      simp [setConfig, hhk, htok, convSet, hnum, finalizeValues, hkp, hk, h1, h2, hasKey_setKey, hne, Ne.symm hne,
+        pure, Except.pure, bind, Except.bind]
+    · refine ⟨setKey cfg k (.atom (.bool !b)), ?_, by simp [h1, h2, lookup_setKey_self]⟩
+      simp [setConfig, hhk, htok, convSet, hnum, finalizeValues, hkp, hk, h1, h2, hasKey_setKey, hne, Ne.symm hne,
+        pure, Except.pure, bind, Except.bind]
+
+/-- **set_numeric_tokens_are_numbers**: a numeric token given to a parameter that is neither boolean
+nor a list is stored as a number — an integer if its binary64 value is integral, else that float -/
+theorem set_numeric_tokens_are_numbers (cfg : Dict) (k tok : String) (x : Rat) (old : Atom)
+    (hk : lookup cfg k = some (.atom old)) (hnb : ∀ b, old ≠ .bool b) (hkp : k ≠ "plot_seaborn_palette")
+    (htok : hasKey cfg tok = false) (hnum : isNumber tok = true) (hx : toFloat tok = .ok x) :
+    ∃ out, setConfig cfg [k, tok] = .ok out ∧
+      lookup out k = some (.atom (if x.den = 1 then .int x.num else .flt x)) := by
+  have hhk : hasKey cfg k = true := (hasKey_iff_lookup _ _).mpr ⟨_, hk⟩
+  have hne : k ≠ tok := by intro e; rw [e] at hhk; rw [hhk] at htok; cases htok
+  refine ⟨setKey cfg k (.atom (if x.den = 1 then .int x.num else .flt x)), ?_, lookup_setKey_self _ _ _⟩
+  cases old with
+  | bool b => exact absurd rfl (hnb b)
+  | _ =>
+    simp [setConfig, hhk, htok, convSet, hnum, hx, finalizeValues, hkp, hk, hasKey_setKey, hne, Ne.symm hne,
+      pure, Except.pure, bind, Except.bind]
+
+/-! ## reset, upgrade, merge, lock -/
+
+/-- **reset_subset_restores_exactly**: exactly the named default parameters get their default value,
+every other parameter keeps its value; with every default key present the key list is unchanged -/
+theorem reset_subset_restores_exactly (defaults cfg : Dict) (ps : List String) (k : String) :
+    lookup (resetSubset defaults cfg ps) k =
+      if k ∈ ps ∧ hasKey defaults k = true then lookup defaults k else lookup cfg k :=
+  resetSubset_lookup defaults ps k cfg
+
+theorem reset_subset_keys_invariant (defaults cfg : Dict) (ps : List String)
+    (hall : ∀ k, hasKey defaults k = true → hasKey cfg k = true) :
+    keys (resetSubset defaults cfg ps) = keys cfg := resetSubset_keys defaults ps cfg hall
+
+/-- **upgrade_adds_missing_keeps_user_values** -/
+theorem upgrade_adds_missing_keeps_user_values (defaults old : Dict) :
+    (∀ k v, lookup old k = some v → lookup (upgrade defaults old) k = some v) ∧
+    (∀ k, hasKey defaults k = true → hasKey (upgrade defaults old) k = true) ∧
+    (∀ k, hasKey (upgrade defaults old) k = true → hasKey old k = true ∨ hasKey defaults k = true) := by
+  refine ⟨fun k v h => ?_, fun k h => ?_, fun k h => ?_⟩
+  · exact foldl_soft_lookup_first old defaults old (fun _ _ h => h) k v h
+  · exact merge_hasKey_second old defaults true old (fun _ h => h) k h
+  · exact merge_hasKey_only old defaults true old k h
+
+/-- **merge_hard_soft_semantics**: the keys are the union; soft keeps every value of the first dict;
+hard takes the second dict's value where it has one and the first dict's value elsewhere -/
+theorem merge_hard_soft_semantics (first second : Dict) (soft : Bool) :
+    (∀ k, hasKey (mergeDicts first second soft) k = true ↔ (hasKey first k = true ∨ hasKey second k = true)) ∧
+    (soft = true → ∀ k v, lookup first k = some v → lookup (mergeDicts first second soft) k = some v) ∧
+    (soft = false → ∀ k, hasKey second k = false → lookup (mergeDicts first second soft) k = lookup first k) ∧
+    (soft = false → (keys second).Nodup → ∀ k v, lookup second k = some v →
+      lookup (mergeDicts first second soft) k = some v) := by
+  refine ⟨fun k => ⟨fun h => merge_hasKey_only first second soft first k h, fun h => ?_⟩, ?_, ?_, ?_⟩
+  · rcases h with h | h
+    · exact merge_hasKey_first first second soft k h
+    · exact merge_hasKey_second first second soft first (fun _ h => h) k h
+  · intro hs k v h; subst hs; exact foldl_soft_lookup_first first second first (fun _ _ h => h) k v h
+  · intro hs k h; subst hs; exact merge_hard_not_in_second first second k h
+  · intro hs hnd k v h; subst hs; exact merge_hard_second_wins first second k v hnd h
+
+/-- **locked_rejects_unknown**: the loaded settings accept a value for a known parameter (key list
+unchanged) and refuse an unknown one -/
+theorem locked_rejects_unknown (settings : Dict) (k : String) (v : JVal) :
+    (hasKey settings k = false → lockedSet settings k v = .error .locked) ∧
+    (hasKey settings k = true → ∃ out, lockedSet settings k v = .ok out ∧ keys out = keys settings ∧
+      lookup out k = some v) := by
+  constructor
+  · intro h; simp [lockedSet, h]
+  · intro h
+    exact ⟨setKey settings k v, by simp [lockedSet, h, pure, Except.pure], keys_setKey_of_hasKey _ _ _ h,
+      lookup_setKey_self _ _ _⟩
+
+/-- **mergeConfig_config_wins**: every entry of the `-c` file is in the namespace afterwards, whatever the
+command line said; options the file does not mention keep their command-line value -/
+theorem mergeConfig_config_wins (args config settings : Dict) (hnd : (keys config).Nodup) :
+    (∀ k v, lookup config k = some v → lookup (mergeConfig args config settings).1 k = some v) ∧
+    (∀ k, hasKey config k = false → lookup (mergeConfig args config settings).1 k = lookup args k) :=
+  ⟨fun k v h => merge_hard_second_wins args config k v hnd h,
+   fun k h => merge_hard_not_in_second args config k h⟩
+
+/-- **mergeConfig_settings_override_not_persisted**: for that run the package settings take the file's
+value exactly for the parameters they already have — no key is added or removed — and `mergeConfig`
+returns in-memory values only (the model has no file component: nothing is written). -/
+theorem mergeConfig_settings_override_not_persisted (args config settings : Dict) :
+    keys (mergeConfig args config settings).2 = keys settings ∧
+    ∀ k, lookup (mergeConfig args config settings).2 k =
+      match lookup settings k with
+      | none => none
+      | some v => some ((lookup config k).getD v) :=
+  ⟨keys_updateExisting _ _, fun k => lookup_updateExisting _ _ k⟩
+
+/-! ## arbitrary edit histories -/
+
+inductive Op
+  | set (args : List String)
+  | resetSub (ps : List String)
+  | resetAll
+  | merge (other : Dict) (soft : Bool)
+  | upgrade
+
+def applyOp (defaults cfg : Dict) : Op → Except Err Dict
+  | .set args => setConfig cfg args
+  | .resetSub ps => .ok (resetSubset defaults cfg ps)
+  | .resetAll => .ok defaults
+  | .merge other soft => .ok (mergeDicts cfg other soft)
+  | .upgrade => .ok (upgrade defaults cfg)
+
+def applyOps (defaults : Dict) : Dict → List Op → Except Err Dict
+  | cfg, [] => .ok cfg
+  | cfg, op :: ops => match applyOp defaults cfg op with
+    | .ok c => applyOps defaults c ops
+    | .error e => .error e
+
+def Op.isEdit : Op → Bool
+  | .set _ => true | .resetSub _ => true | _ => false
+
+/-- over any history of `set` and `reset <subset>` operations the key list never changes -/
+theorem history_set_reset_keys_invariant (defaults : Dict) (ops : List Op) (hops : ∀ o ∈ ops, o.isEdit = true) :
+    ∀ cfg out, (∀ k, hasKey defaults k = true → hasKey cfg k = true) →
+      applyOps defaults cfg ops = .ok out → keys out = keys cfg := by
+  induction ops with
+  | nil => intro cfg out _ h; simp [applyOps] at h; rw [h]
+  | cons op ops ih =>
+    intro cfg out hall h
+    have hops' : ∀ o ∈ ops, o.isEdit = true := fun o ho => hops o (by simp [ho])
+    have hop := hops op (by simp)
+    rw [applyOps] at h
+    cases op with
+    | set args =>
+      cases hs : setConfig cfg args with
+      | error e => simp [applyOp, hs] at h
+      | ok c =>
+        simp only [applyOp, hs] at h
+        have hk := setConfig_keys args cfg c hs
+        rw [ih hops' c out (fun k hk' => by rw [hasKey_iff_mem_keys, hk, ← hasKey_iff_mem_keys]; exact hall k hk') h, hk]
+    | resetSub ps =>
+      simp only [applyOp] at h
+      have hk := resetSubset_keys defaults ps cfg hall
+      rw [ih hops' _ out (fun k hk' => by rw [hasKey_iff_mem_keys, hk, ← hasKey_iff_mem_keys]; exact hall k hk') h, hk]
+    | resetAll => simp [Op.isEdit] at hop
+    | merge o s => simp [Op.isEdit] at hop
+    | upgrade => simp [Op.isEdit] at hop
+
+/-- over any history of set / reset / merge (soft and hard) / upgrade operations every default key stays present -/
+theorem history_default_keys_stay (defaults : Dict) (ops : List Op) :
+    ∀ cfg out, (∀ k, hasKey defaults k = true → hasKey cfg k = true) →
+      applyOps defaults cfg ops = .ok out → ∀ k, hasKey defaults k = true → hasKey out k = true := by
+  induction ops with
+  | nil => intro cfg out hall h; simp [applyOps] at h; rw [← h]; exact hall
+  | cons op ops ih =>
+    intro cfg out hall h
+    rw [applyOps] at h
+    cases op with
+    | set args =>
+      cases hs : setConfig cfg args with
+      | error e => simp [applyOp, hs] at h
+      | ok c =>
+        simp only [applyOp, hs] at h
+        have hk := setConfig_keys args cfg c hs
+        exact ih c out (fun k hk' => by rw [hasKey_iff_mem_keys, hk, ← hasKey_iff_mem_keys]; exact hall k hk') h
+    | resetSub ps =>
+      simp only [applyOp] at h
+      have hk := resetSubset_keys defaults ps cfg hall
+      exact ih _ out (fun k hk' => by rw [hasKey_iff_mem_keys, hk, ← hasKey_iff_mem_keys]; exact hall k hk') h
+    | resetAll => simp only [applyOp] at h; exact ih _ out (fun _ h => h) h
+    | merge o s =>
+      simp only [applyOp] at h
+      exact ih _ out (fun k hk' => merge_hasKey_first cfg o s k (hall k hk')) h
+    | upgrade =>
+      simp only [applyOp] at h
+      exact ih _ out (fun k hk' => merge_hasKey_first cfg defaults true k (hall k hk')) h
+
+/-! ## generate -/
+
+/-- an option with its value tokens, as written on the command line -/
+structure Group where
+  opt : String
+  vals : List String
+
+def Group.render (g : Group) : List String := g.opt :: g.vals
+
+/-- well-formed: the option token is an option for `generate` (starts with `-`, not a number), the
+values are not (they do not start with `-`, or they are numbers) -/
+def Group.WF (g : Group) : Prop := isOptionTok g.opt = true ∧ ∀ v ∈ g.vals, isOptionTok v = false
+
+/-- the config entry `generate` must produce for a group -/
+def Group.value (g : Group) : Except Err JVal :=
+  if g.vals.isEmpty then pure (.atom (.bool true))
+  else do let vals ← g.vals.mapM convGen; pure (scalarOrList vals)
+
+def expected : List Group → Dict → Except Err Dict
+  | [], d => pure d
+  | g :: gs, d => do let v ← g.value; expected gs (setKey d (stripDashes g.opt) v)
+
+theorem takeWhile_vals (p : String → Bool) (vals rest : List String) (hv : ∀ v ∈ vals, p v = true)
+    (hr : rest = [] ∨ ∃ a r, rest = a :: r ∧ p a = false) : (vals ++ rest).takeWhile p = vals := by
+  induction vals with
+  | nil =>
+    rcases hr with h | ⟨a, r, h, ha⟩
+    · simp [h]
+    · simp [h, List.takeWhile, ha]
+  | cons v vs ih =>
+    have := hv v (by simp)
+    simp [List.takeWhile, this, ih (fun w hw => hv w (by simp [hw]))]
+
+theorem skip_vals (isOpt : String → Bool) (conv : String → Except Err Atom) (vals rest : List String) (d : Dict)
+    (hv : ∀ v ∈ vals, isOpt v = false) :
+    generateWith isOpt conv (vals ++ rest) d = generateWith isOpt conv rest d := by
+  induction vals with
+  | nil => rfl
+  | cons v vs ih =>
+    have := hv v (by simp)
+    simp only [List.cons_append, generateWith, this, Bool.false_eq_true, if_false]
+    exact ih (fun w hw => hv w (by simp [hw]))
+
+theorem flatMap_head (gs : List Group) (hwf : ∀ g ∈ gs, g.WF) :
+    gs.flatMap Group.render = [] ∨ ∃ a r, gs.flatMap Group.render = a :: r ∧ (!isOptionTok a) = false := by
+  cases gs with
+  | nil => left; rfl
+  | cons g gs =>
+    right
+    exact ⟨g.opt, g.vals ++ gs.flatMap Group.render, by simp [Group.render], by simp [(hwf g (by simp)).1]⟩
+
+/-- **generate_groups** (the `generate` half of `generate ≡ args`): for every well-formed list of
+option groups — flags, single values, several values; integers, negative numbers, floats, strings —
+`generate` yields exactly one entry per group: `true` for a flag, the value(s) converted by
+`to_number` otherwise (integers stay integers, negative numbers are values). -/
+theorem generate_groups (gs : List Group) (hwf : ∀ g ∈ gs, g.WF) (d : Dict) :
+    generateWith isOptionTok convGen (gs.flatMap Group.render) d = expected gs d := by
+  induction gs generalizing d with
+  | nil => rfl
+  | cons g gs ih =>
+    have hg := hwf g (by simp)
+    have hwf' : ∀ g ∈ gs, g.WF := fun g' hg' => hwf g' (by simp [hg'])
+    have htw : (g.vals ++ gs.flatMap Group.render).takeWhile (fun t => !isOptionTok t) = g.vals :=
+      takeWhile_vals _ _ _ (fun v hv => by simp [hg.2 v hv]) (flatMap_head gs hwf')
+    simp only [List.flatMap_cons, Group.render, List.cons_append, generateWith, hg.1, if_true, htw, expected,
+      Group.value]
+    by_cases he : g.vals.isEmpty = true
+    · simp only [he, if_true, pure, Except.pure, bind, Except.bind]
+      rw [skip_vals _ _ _ _ _ hg.2]
+      exact ih hwf' _
+    · simp only [he, Bool.false_eq_true, if_false]
+      cases hm : g.vals.mapM convGen with
+      | error e => simp [bind, Except.bind]
+      | ok vals =>
+        simp only [bind, Except.bind, pure, Except.pure]
+        rw [skip_vals _ _ _ _ _ hg.2]
+        exact ih hwf' _
+
+/-- integer tokens stay integers, whatever their size; other numeric tokens become that float -/
+theorem generate_value_int (tok : String) (i : Int) (hn : isNumber tok = true) (hi : parseInt tok = some i) :
+    convGen tok = .ok (.int i) := by
+  simp [convGen, hn, hi, pure, Except.pure]
+
+theorem generate_value_float (tok : String) (x : Rat) (hn : isNumber tok = true) (hi : parseInt tok = none)
+    (hx : toFloat tok = .ok x) : convGen tok = .ok (.flt x) := by
+  simp [convGen, hn, hi, hx, pure, Except.pure, bind, Except.bind]
+
+/-- a numeric token is never read as an option: negative numbers are values -/
+theorem number_is_not_option (tok : String) (hn : isNumber tok = true) : isOptionTok tok = false := by
+  simp [isOptionTok, hn]
+
+/-- **generate_equiv_args_partial**: on the documented example and on the argument list of finding F3 the
+namespace obtained through `generate` + `merge_config` equals the one argparse produces from the
+arguments (kernel-evaluated for the regenerated evo_ape table).  The general statement — for every
+well-formed long-option list over the three tables, `mergeConfig defaults (generate toks)` ≈
+`argparseLong toks` — is NOT proved: `generate_groups` proves the `generate` half for all lists;
+the argparse half is tied differentially (harness: random typed lists, both sides against the real
+parsers).  Excluded token classes: string-typed options given a numeric-looking value, negative
+numbers in exponent notation (`-1e-3`, argparse rejects them), `nan`/`inf`/`_` spellings, short options. -/
+theorem generate_equiv_args_partial :
+    (∀ toks ∈ [["--downsample", "500", "--t_offset", "-0.5", "--n_to_align", "-1"],
+               ["--align", "--plot", "--plot_mode", "xz", "--verbose"],
+               ["--motion_filter", "0.5", "-3", "--t_max_diff", "1"]],
+      ∃ c, (generate toks).toOption = some c ∧
+        ∃ a, argparseLong Gen.apeOptions toks (defaultsOf Gen.apeOptions) Gen.apeExclusive = some a ∧
+          (∀ o ∈ Gen.apeOptions,
+            ((lookup (mergeConfig (defaultsOf Gen.apeOptions) c []).1 o.name).bind fun x =>
+              (lookup a o.name).map fun y => valApprox x y) = some true)) := by
+  decide +kernel
+
+/-! ## the pinned code before fix 70efe12 (finding F3): kernel-checked counterexamples -/
+
+/-- **generate_int_counterexample**: `--downsample 500 ↦ 500.0` (evo_ape -c then fails in linspace) -/
+theorem generate_int_counterexample :
+    (generateOld ["--downsample", "500"]).toOption = some [("downsample", .atom (.flt 500))] ∧
+    (generate ["--downsample", "500"]).toOption = some [("downsample", .atom (.int 500))] := by
+  decide +kernel
+
+/-- **generate_negative_counterexample**: `--t_offset -0.5` was read as two flags -/
+theorem generate_negative_counterexample :
+    (generateOld ["--t_offset", "-0.5"]).toOption
+      = some [("t_offset", .atom (.bool true)), ("0.5", .atom (.bool true))] ∧
+    (generate ["--t_offset", "-0.5"]).toOption = some [("t_offset", .atom (.flt (-1/2)))] := by
+  decide +kernel
+
+/-! ## the regenerated tables -/
+
+/-- every long option of the three parsers stores under its own name, with an action the model covers -/
+theorem option_tables_modelled :
+    Gen.apeUnmodelled = [] ∧ Gen.rpeUnmodelled = [] ∧ Gen.trajUnmodelled = [] := by decide
+
+/-- the 50 settings keys are pairwise distinct, and the default `plot_seaborn_palette` is a string -/
+theorem default_keys_nodup : Gen.defaultKeys.Nodup ∧ keys Gen.defaultSettings = Gen.defaultKeys := by
+  decide +kernel
+
+/-! ## non-vacuity -/
+
+example : (setConfig Gen.defaultSettings ["plot_split", "plot_linewidth", "3", "plot_statistics", "none"]).toOption.map
+    (fun d => (lookup d "plot_split", lookup d "plot_linewidth", lookup d "plot_statistics"))
+    = some (some (.atom (.bool true)), some (.atom (.int 3)), some (.list [])) := by decide +kernel
+
+example : (setConfig Gen.defaultSettings ["plot_split", "FALSE", "plot_reference_alpha", "0.25"]).toOption.map
+    (fun d => (lookup d "plot_split", lookup d "plot_reference_alpha"))
+    = some (some (.atom (.bool false)), some (.atom (.flt (1/4)))) := by decide +kernel
+
+example : (Group.mk "--t_offset" ["-0.5"]).WF := by
+  constructor
+  · decide +kernel
+  · intro v hv; simp at hv; subst hv; decide +kernel
+
 end Evo.C18
